@@ -325,3 +325,6 @@ def check(P, R, tier):
     # the sync path "stored block -> helper -> Propose" serves every stored block with its exact decoded value (C07.Y1)
     from ..common import fold
     fold(R, P, "c07", ("C07.Y1",), "C20.H6", 8)
+    # ... and a block looked up by its digest (the parent of a block = the block stored under qc.hash) is the value decoded
+    # from the store entry read under THAT digest, never a block found by another attribute such as its round (C05.K4)
+    fold(R, P, "c05", ("C05.K4",), "C20.H7", 8)
